@@ -479,3 +479,7 @@ mod tests {
         );
     }
 }
+
+#[cfg(all(test, feature = "pendulum_project_ntpd_rs_verif"))]
+#[path = "../../../../../verif/harness/ntpd/daemon_config_server.rs"]
+mod verif_daemon_config_server;
